@@ -27,7 +27,7 @@ META = {
     "design_ref": "4/C05",
 }
 LEVEL = "proof"
-EXTRACTS = ["repex"]
+EXTRACTS = ["repex", "c02"]
 
 
 class _T:
